@@ -412,6 +412,11 @@ func parseString(p *peeker) (node, hcl.Diagnostics) {
         var errRange hcl.Range
         if serr, ok := err.(*json.SyntaxError); ok {
             errOfs := serr.Offset
+            if errOfs >= int64(len(tok.Bytes)) && len(tok.Bytes) > 0 {
+                // the input ended inside the string: point at its last byte, not
+                // at a position behind the end of the input
+                errOfs = int64(len(tok.Bytes)) - 1
+            }
             errPos := tok.Range.Start
             errPos.Byte += int(errOfs)
 
